@@ -30,6 +30,7 @@ type Server struct {
 	Log     []Cmd
 	n       int
 	FailAt  int // fail the command with this index (1-based, counting data commands) ; 0 = never
+	Failed  *Cmd // the command that was made to fail, once it happened
 	reqid   int32
 	Verbose bool
 }
@@ -74,6 +75,7 @@ func (s *Server) Reset() {
 	s.Log = nil
 	s.n = 0
 	s.FailAt = 0
+	s.Failed = nil
 }
 
 // SawAfter reports whether a command `name` on collection `coll` was logged after command number n.
@@ -89,6 +91,23 @@ func (s *Server) SawAfter(n int, name, coll string) bool {
 		}
 	}
 	return false
+}
+
+// FailNext makes the k-th data command from now fail with a server error (k >= 1).
+func (s *Server) FailNext(k int) {
+	s.mu.Lock()
+	defer s.mu.Unlock()
+	s.FailAt = s.n + k
+	s.Failed = nil
+}
+
+// TakeFailed disarms the fault plan and returns the command that was failed, if it came to that.
+func (s *Server) TakeFailed() *Cmd {
+	s.mu.Lock()
+	defer s.mu.Unlock()
+	f := s.Failed
+	s.FailAt, s.Failed = 0, nil
+	return f
 }
 
 func (s *Server) CmdCount() int { s.mu.Lock(); defer s.mu.Unlock(); return s.n }
@@ -320,6 +339,7 @@ func (s *Server) handle(cmd bson.D) bson.D {
 		fmt.Printf("  [mongo #%d] %s %s\n", s.n, name, collName)
 	}
 	if s.FailAt == s.n {
+		s.Failed = &Cmd{N: s.n, Name: name, Coll: collName}
 		return bson.D{{Key: "ok", Value: float64(0)}, {Key: "errmsg", Value: "injected failure"}, {Key: "code", Value: int32(96)}, {Key: "codeName", Value: "OperationFailed"}}
 	}
 	switch name {
